@@ -15,6 +15,9 @@ Decided:
               get_nan_intervals returns the inclusive first/last index of each run;
  TWIN.jumps   remove_jumps and q_correct value-number to the same jump indices and negate the same slices.
 Not decided: rounding at the LERP/SLERP switch, leading/trailing NaN runs (outside the quantifier).
+Added after refactoring round 3 (DESIGN.md 6.9):
+ NANFILL.empty  run[0] of np.split(<NaN indices>) is reached only under a test that some NaN index exists (np.split of an empty array yields one empty run,
+            so a gap-free array used to raise IndexError: fixed in /repo, 3ec79bf).
 """
 import ast
 import numpy as np
